@@ -13,7 +13,8 @@ Spaces (DESIGN.md section 4, C08); N = 4^(n+1) phased Paulis on n qubits:
   objhist  : H-stateless histories of property accesses / operations on one PauliOperator (memoised _str/_sign/_np_list).
   bigidx   : structured alphabet of large indices for every n <= 31, scalar and batched, all index conversions.
   bign     : n = 5..12: structured alphabet of phased Paulis (+ generic atoms), all ordered pairs, against a letter-wise
-             reference that is itself validated against dense matrices for n <= 2 in prepare().
+             reference that is itself validated against dense matrices for n <= 2 in prepare(); conversion paths of
+             length <= 2 (through dense matrices up to n = 8 quick / 9 thorough: kind bign_dense).
   rand_stub: rand_pauli with a stub generator answering every one of the 2^(2n+2) bit patterns x every flag value.
   rand_seed: rand_pauli with integer seeds (a fixed list) for n = 1..12 x every flag value.
 Oracle: dense numpy (mc.ref) + the letter-wise reference below.
@@ -251,7 +252,7 @@ def start_value(node, e):
     raise ValueError(node)
 
 
-GROUP_NMAX = 4  # get_pauli_group builds all 4^n dense matrices
+GROUP_NMAX = 5  # get_pauli_group builds all 4^n dense matrices
 
 
 def _obj_sign_first(g, v, n):
@@ -294,6 +295,10 @@ EDGES = [
     ('pauli_F2_to_index[with_sign=False]', 'F2NS', 'IDX', lambda g, v, n: g.pauli_F2_to_index(v, with_sign=False)),
     ('PauliOperator.from_np_list', 'NPL', 'F2', lambda g, v, n: g.PauliOperator.from_np_list(v[0], sign=v[1]).F2),
     ('PauliOperator.from_full_matrix', 'MAT', 'F2', lambda g, v, n: g.PauliOperator.from_full_matrix(v).F2),
+    # the same matrix known only to 1e-10 (global phase rotated by +-1e-10 rad): from_full_matrix accepts deviations up to
+    # its own thresholds of 1e-7 and has to *round* the phase angle to a multiple of pi/2
+    ('PauliOperator.from_full_matrix[phase+1e-10]', 'MAT', 'F2', lambda g, v, n: g.PauliOperator.from_full_matrix(v * np.exp(1e-10j)).F2),
+    ('PauliOperator.from_full_matrix[phase-1e-10]', 'MAT', 'F2', lambda g, v, n: g.PauliOperator.from_full_matrix(v * np.exp(-1e-10j)).F2),
 ]
 NODES = ['F2', 'SS', 'IDX', 'F2NS', 'NPL', 'MAT']
 
@@ -416,6 +421,7 @@ def prepare(env):
         ref.pauli_table(n)
     if env.tier == 'thorough':
         ref.pauli_table(4)
+        ref.pauli_table(5)
 
 
 def build_cases(tier, seed):
@@ -427,17 +433,20 @@ def build_cases(tier, seed):
     info['group_sizes'] = {str(n): 4 ** (n + 1) for n in n_full}
     info['conversion_path_length'] = 3
     info['conversion_edges'] = [e[0] for e in EDGES]
+    # thorough: conversions and algebra additionally over the whole 5-qubit group (4096 elements, 16.7e6 ordered pairs)
+    n_conv = n_full if quick else n_full + [5]
+    info['n_full_group_conversions_and_algebra'] = n_conv
     # conv
-    for n in n_full:
+    for n in n_conv:
         N = 4 ** (n + 1)
         step = 16 if n <= 3 else 32
         for a in range(0, N, step):
             cases.append({'kind': 'conv', 'n': n, 'lo': a, 'hi': min(N, a + step)})
     # algebra
     info['matrix_product_through_full_matrix_n'] = [1, 2] if quick else [1, 2, 3]
-    for n in n_full:
+    for n in n_conv:
         N = 4 ** (n + 1)
-        step = {1: 16, 2: 16, 3: 16, 4: 16}[n]
+        step = 16
         for a in range(0, N, step):
             cases.append({'kind': 'algebra', 'n': n, 'lo': a, 'hi': min(N, a + step),
                           'via_full_matrix': n in info['matrix_product_through_full_matrix_n']})
@@ -464,10 +473,15 @@ def build_cases(tier, seed):
         cases.append({'kind': 'bigidx', 'n': n})
     # large n
     info['big_n'] = list(range(5, 13))
-    info['big_n_dense_upto'] = 8 if quick else 10
+    info['big_n_dense_upto'] = 8 if quick else 9
     info['generic_atoms_per_alphabet'] = n_generic(tier)
     for n in range(5, 13):
-        cases.append({'kind': 'bign', 'n': n, 'dense': n <= info['big_n_dense_upto']})
+        cases.append({'kind': 'bign', 'n': n})
+        if n <= info['big_n_dense_upto']:
+            A = len(big_letter_alphabet(n, core.Env(tier, seed), n_generic(tier)))
+            step = 64 if n <= 7 else (16 if n == 8 else 8)
+            for a in range(0, A, step):
+                cases.append({'kind': 'bign_dense', 'n': n, 'lo': a, 'hi': min(A, a + step)})
     # rand_pauli: stub generator over all answers
     stub_n = [1, 2, 3] if quick else [1, 2, 3, 4, 5]
     info['rand_stub_n'] = stub_n
@@ -492,7 +506,7 @@ def run_conv(case, out, env, numqi):
     f2all = ref.all_f2(n)
     for i in range(case['lo'], case['hi']):
         e0 = f2_to_elem(f2all[i])
-        if n <= 4:
+        if n <= 5:
             # cross-check of the two references on every element that is explored
             if not np.array_equal(elem_dense(e0), ref.pauli_dense(f2all[i])):
                 harness_abort('elem_dense != pauli_dense for %s' % (f2all[i].tolist(),))
@@ -844,13 +858,12 @@ def run_bign(case, out, env, numqi):
     g = numqi.gate
     n = case['n']
     alpha = big_letter_alphabet(n, env, n_generic(env.tier))
-    dense_ok = bool(case['dense'])
     f2s = [elem_to_f2(e) for e in alpha]
-    # conversions: all paths of length <= 2 from the F2, (str,sign), index and np_list nodes (+ dense when affordable)
+    # conversions: all paths of length <= 2 from the F2, (str,sign), index and np_list nodes (dense matrices: kind bign_dense)
     for e in alpha:
         out.state()
-        for node in ['F2', 'SS', 'NPL'] + (['IDX', 'F2NS'] if e[0] == 0 else []) + (['MAT'] if dense_ok else []):
-            walk(g, out, n, e, node, start_value(node, e), e, 2, [], node, site='bign', dense_ok=dense_ok)
+        for node in ['F2', 'SS', 'NPL'] + (['IDX', 'F2NS'] if e[0] == 0 else []):
+            walk(g, out, n, e, node, start_value(node, e), e, 2, [], node, site='bign', dense_ok=False)
     # algebra: all ordered pairs of the alphabet against the letter-wise reference
     objs = [g.PauliOperator(v.copy()) for v in f2s]
     ident = np.zeros(2 * n + 2, dtype=np.uint8)
@@ -888,6 +901,17 @@ def run_bign(case, out, env, numqi):
     # rand_pauli: the generator answers each alphabet element
     rand_answers(numqi, out, n, f2s, 'bign')
     out.sample = {'kind': 'bign', 'n': n, 'alphabet_size': len(alpha), 'example': ['%d:%s' % e for e in alpha[-3:]]}
+
+
+def run_bign_dense(case, out, env, numqi):
+    g = numqi.gate
+    n = case['n']
+    alpha = big_letter_alphabet(n, env, n_generic(env.tier))
+    for e in alpha[case['lo']:case['hi']]:
+        out.state()
+        for node in ('F2', 'MAT'):
+            walk(g, out, n, e, node, start_value(node, e), e, 2, [], node, site='bign', dense_ok=True)
+    out.sample = {'kind': 'bign_dense', 'n': n, 'example': '%d:%s' % alpha[case['lo']]}
 
 
 FLAGS = [('None', None), ('True', True), ('False', False), ('np.True_', np.True_), ('np.False_', np.False_)]
@@ -972,7 +996,7 @@ def run_rand_seed(case, out, env, numqi):
 
 
 RUNNERS = {'conv': run_conv, 'algebra': run_algebra, 'objhist': run_objhist, 'batch': run_batch, 'bigidx': run_bigidx,
-           'bign': run_bign, 'rand_stub': run_rand_stub, 'rand_seed': run_rand_seed}
+           'bign': run_bign, 'bign_dense': run_bign_dense, 'rand_stub': run_rand_stub, 'rand_seed': run_rand_seed}
 
 
 def run_case(case, out, env):
